@@ -517,6 +517,13 @@ func runC05History(t *fw.T) {
 	bad := false
 	ok := t.Guard("registration history", wit, func() {
 		for i := 0; i < n && !bad; i++ {
+			if r.IntN(6) == 0 {
+				// a parser built (and used) in the middle of the history: registrations made afterwards on the same builder
+				// must behave exactly as on the twin, which is never built before the history ends
+				hist = append(hist, regOp{Op: "build"})
+				pbReal.Build("a + b * -c").ParseProgram()
+				t.Count("builds_in_mid_history", 1)
+			}
 			if len(ids) == 0 || r.IntN(3) == 0 {
 				name := typeNames[r.IntN(len(typeNames))]
 				hist = append(hist, regOp{Op: "type", Name: name})
@@ -631,6 +638,17 @@ func runC05History(t *fw.T) {
 	}
 	// the real builder (which saw refused calls) and the twin (which skipped them) must parse alike
 	progs := []string{"a + b * c", "x = -y", "f(a, b)[0].p++"}
+	for _, a := range accepted {
+		// one minimal use of every accepted operator
+		switch a.role {
+		case "infix":
+			progs = append(progs, "a "+string(a.ch)+" b")
+		case "prefix":
+			progs = append(progs, string(a.ch)+"a")
+		default:
+			progs = append(progs, "a"+string(a.ch))
+		}
+	}
 	if len(accepted) > 0 {
 		for k := 0; k < 3; k++ {
 			tr := randCustomTree(r, 2+r.IntN(3), accepted)
@@ -658,11 +676,11 @@ func runC05History(t *fw.T) {
 		if a != b || !reflect.DeepEqual(ea, eb) {
 			m := w()
 			m["real"], m["twin"] = a, b
-			t.Violate("refused-registration-changes-parser", "twin differential", fmt.Sprintf("after a history with refused registrations the builder parses %q differently from a twin that skipped them: %s vs %s", src, a, b), m)
+			t.Violate("history-changes-parser", "twin differential", fmt.Sprintf("after a history with refused registrations and intermediate builds the builder parses %q differently from a twin that saw only the accepted registrations: %s vs %s", src, a, b), m)
 			return
 		}
 		if pa != nil && !reflect.DeepEqual(pa, pb) {
-			t.Violate("refused-registration-changes-parser", "hook: binding-power table", "per-parser binding-power table differs from the twin's", w())
+			t.Violate("history-changes-parser", "hook: binding-power table", "per-parser binding-power table differs from the twin's", w())
 			return
 		}
 	}
